@@ -2,3 +2,4 @@ import Biogo.Properties.C13_history
 open Biogo.Properties.C13_history
 #print axioms history_fault_surfaces
 #print axioms history_no_error
+#print axioms surfaceStatement_sound
